@@ -169,6 +169,8 @@ type State struct {
 	treeSnap  map[int]string
 	violExtra []*Term
 	outVals   []outVal
+	reApps    []reApp
+	owned     map[int]bool // objects owned through sync.Pool.Get
 	steps     int
 }
 
@@ -209,6 +211,10 @@ func (s *State) clone() *State {
 	}
 	if s.AccessLog != nil {
 		n.AccessLog = s.AccessLog.clone()
+	}
+	n.owned = make(map[int]bool, len(s.owned))
+	for k, v := range s.owned {
+		n.owned[k] = v
 	}
 	if s.Tree != nil {
 		n.Tree = make(map[int]bool, len(s.Tree))
